@@ -16,6 +16,7 @@ func init() {
 	commands["c01"] = func(seed uint64, n int, out, stats string, a []string) { runLedgerMon("C01", seed, n, out, stats) }
 	commands["c02"] = func(seed uint64, n int, out, stats string, a []string) { runLedgerMon("C02", seed, n, out, stats) }
 	commands["c03node"] = func(seed uint64, n int, out, stats string, a []string) { runLedgerMon("C03", seed, n, out, stats) }
+	commands["c04node"] = func(seed uint64, n int, out, stats string, a []string) { runLedgerMon("C04", seed, n, out, stats) }
 	commands["c26node"] = func(seed uint64, n int, out, stats string, a []string) { runLedgerMon("C26", seed, n, out, stats) }
 	commands["c27node"] = func(seed uint64, n int, out, stats string, a []string) { runLedgerMon("C27", seed, n, out, stats) }
 	commands["c05node"] = func(seed uint64, n int, out, stats string, a []string) { runLedgerMon("C05", seed, n, out, stats) }
@@ -79,8 +80,9 @@ func runLedgerMon(pid string, seed uint64, n int, out, stats string) {
 				g.Weights[k] = v
 			}
 		}
-		if pid == "C26" {
+		if pid == "C26" || pid == "C04" {
 			g.Replay, g.Monitors, g.Malformed = true, false, false
+			g.ReplayKey = strings.ToLower(pid)
 		}
 		if pid == "C27" {
 			g.FeeRoute, g.Monitors, g.Malformed = true, false, false
@@ -130,7 +132,7 @@ func runLedgerMon(pid string, seed uint64, n int, out, stats string) {
 			fails = res.C03
 			agree += res.C03Checked
 		}
-		if pid == "C26" {
+		if pid == "C26" || pid == "C04" {
 			fails = res.C26
 			agree += res.C26Replays
 		}
